@@ -23,7 +23,7 @@ THEOREMS = [
     ("QmcProofs.Composed", ["Qmc.Composed." + t for t in [
         "clusterUpdate_is_step", "ising_clusterUpdate_is_step", "isingTimestep_pres", "isingTrace_inv", "isingRun_inv",
         "genericTimestep_pres", "genericTrace_inv", "isingSpec_timestep_invariant", "isingSpec_timestep_invariant_hb",
-        "longitudinal_ne_longitudinalW_offdiag"]]),
+        "longitudinal_eq_longitudinalW", "isingSpec_ham_fields", "isingSpec_ham_eq"]]),
 ]
 
 RULE = ("whole-timestep trajectories: real Ising samplers on 2..6 spins (multi-edges, isolated spins, J of both signs k/8, "
